@@ -1,18 +1,128 @@
 package main
 
+import "github.com/tikv/pd/server/schedulers"
+
 var plainKinds = []int{kOffline, kDown, kEvicted, kReject}
 var allKinds = []int{kOffline, kDown, kDisconn, kTomb, kEvicted, kReject, kTiFlash}
 
-func scopes() []*scope {
-	return []*scope{
-		{name: "scatter/5stores/hist2", tiers: "quick", desc: "",
-			gen: genScatter(mkEnvs([]int{5}, []int{3}, []int{0}, []int{0}, 0, nil), scatterBounds{hist: 2, groups: 2})},
-		{name: "scatter/4stores/1special", tiers: "quick", desc: "",
-			gen: genScatter(mkEnvs([]int{4}, []int{3}, []int{0,1}, []int{0}, 1, plainKinds), scatterBounds{hist: 2, groups: 2})},
-		{name: "sched/4stores", tiers: "quick", desc: "",
-			gen: genSched(mkEnvs([]int{4}, []int{3}, []int{0}, []int{0}, 1, allKinds), schedBounds{types: allSchedTypes, levels: 3, pending: true})},
+var hotTypes = []string{schedulers.HotRegionType, schedulers.ShuffleHotRegionType}
+var coldTypes = []string{
+	schedulers.BalanceRegionType, schedulers.BalanceLeaderType,
+	schedulers.ShuffleLeaderType, schedulers.ShuffleRegionType,
+	schedulers.EvictLeaderType, schedulers.GrantLeaderType, schedulers.LabelType, schedulers.ScatterRangeType,
+}
+
+func concat(gs ...func(g *genCtx)) func(g *genCtx) {
+	return func(g *genCtx) {
+		for _, f := range gs {
+			f(g)
+		}
 	}
 }
 
-func boundsDoc() interface{} { return nil }
-func assumptions() []string  { return nil }
+// tiflashEnvs: n stores of which the last two are TiFlash stores (so that a TiFlash learner can move) and <= 1 further non-up store.
+func tiflashEnvs(n, replicas int, extra []int) []envSpec {
+	var out []envSpec
+	for _, kv := range kindVariants(n-2, 1, extra) {
+		k := append(append([]int(nil), kv...), kTiFlash, kTiFlash)
+		out = append(out, envSpec{N: n, Kinds: k, Replicas: replicas, Rules: 2})
+	}
+	return out
+}
+
+func scopes() []*scope {
+	one := []int{0}
+	return []*scope{
+		// ------------------------------------------------------------ quick
+		{name: "scatter/5stores/all-up/hist<=2", tiers: "quick",
+			desc: "5 up stores, 3 replicas, rules off: every sequence of <=2 earlier Scatter calls (every 3-store region, groups g1 g2) followed by Scatter of every 3-store region in every peer order with every leader",
+			gen:  genScatter(mkEnvs([]int{5}, []int{3}, one, one, 0, nil), scatterBounds{hist: 2, groups: 2})},
+		{name: "scatter/3-6stores/replicas1-4/hist<=1", tiers: "quick",
+			desc: "3..6 up stores x 1..4 replicas x rules {off, on}: histories of <=1 earlier call (groups g1 g2), last call: every region in every peer order with every leader; ScatterRegions on every ordered pair of regions; one non-leader peer pending",
+			gen: concat(genScatter(mkEnvs([]int{3, 4, 5, 6}, []int{1, 2, 3, 4}, []int{0, 1}, one, 0, nil), scatterBounds{hist: 1, groups: 2}),
+				genScatter(mkEnvs([]int{4, 5}, []int{2, 3}, one, one, 0, nil), scatterBounds{hist: 1, groups: 1, batch: true, lastCanon: true}),
+				genScatter(mkEnvs([]int{4, 5}, []int{3}, one, one, 0, nil), scatterBounds{hist: 1, groups: 1, pending: true}))},
+		{name: "scatter/4-5stores/1-non-up/hist<=1", tiers: "quick",
+			desc: "4 and 5 stores of which <=1 is offline / down / disconnected / tombstone / evicted / reject-leader, 3 replicas, rules {off, on}; zone labels z1 z1 z2 z2 z3 with location-labels [zone] (5 stores, <=1 of offline/down/evicted/reject-leader): histories of <=1 earlier call, last call in every peer order with every leader",
+			gen: concat(genScatter(mkEnvs([]int{4, 5}, []int{3}, []int{0, 1}, one, 1, allKinds[:6]), scatterBounds{hist: 1, groups: 1}),
+				genScatter(mkEnvs([]int{5}, []int{3}, []int{0, 1}, []int{1}, 1, plainKinds), scatterBounds{hist: 1, groups: 1}))},
+		{name: "scatter/learners+tiflash/hist<=1", tiers: "quick",
+			desc: "placement rules with a learner: (a) 2 voters + 1 learner on TiKV stores, 4 and 5 stores, <=1 non-up store; (b) 2 voters + 1 learner constrained to engine=tiflash, 5 stores of which 2 are TiFlash, <=1 further non-up store: histories of <=1 earlier call, last call in every peer order with every leader",
+			gen: concat(genScatter(mkEnvs([]int{4, 5}, []int{2}, []int{3}, one, 1, plainKinds), scatterBounds{hist: 1, groups: 1}),
+				genScatter(tiflashEnvs(5, 2, plainKinds), scatterBounds{hist: 1, groups: 1}))},
+		{name: "sched/4stores/rules-off", tiers: "quick",
+			desc: "4 stores of which <=1 is offline/down/disconnected/tombstone/evicted/reject-leader/tiflash, 3 replicas, rules off; region on stores 1-3 with every leader, optionally one follower pending; every load vector over 3 levels; balance-region, balance-leader, shuffle-leader, shuffle-region, evict-leader (every evicted store), grant-leader (every up store), label, scatter-range; hot-region and shuffle-hot-region (region hot for read / write, 2 load levels)",
+			gen: concat(genSched(mkEnvs([]int{4}, []int{3}, one, one, 1, allKinds), schedBounds{types: coldTypes, levels: 3, pending: true}),
+				genSched(mkEnvs([]int{4}, []int{3}, one, one, 1, allKinds), schedBounds{types: hotTypes, levels: 2}))},
+		{name: "sched/4-5stores/rules-on+2regions", tiers: "quick",
+			desc: "(a) placement rules on: 4 stores, 3 voters / 2 voters + 1 TiKV learner (every learner position), <=1 non-up store of offline/down/evicted/reject-leader, 2 load levels, all schedulers; (b) rules off, 5 stores with and without zone labels, <=1 non-up store, 2 load levels, the region (every store subset under labels) plus every second region that shares no (store, role) with it, schedulers without flow statistics",
+			gen: concat(genSched(mkEnvs([]int{4}, []int{3}, []int{1}, one, 1, plainKinds), schedBounds{types: append(append([]string(nil), coldTypes...), hotTypes...), levels: 2}),
+				genSched(mkEnvs([]int{4}, []int{2}, []int{3}, one, 1, plainKinds), schedBounds{types: append(append([]string(nil), coldTypes...), hotTypes...), levels: 2}),
+				genSched(mkEnvs([]int{5}, []int{3}, one, []int{0, 1}, 1, plainKinds), schedBounds{types: coldTypes[:7], levels: 2, second: true}))},
+
+		// ------------------------------------------------------------ thorough
+		{name: "scatter/5stores/all-up/hist<=3", tiers: "thorough",
+			desc: "5 up stores, 3 replicas, rules off and on: every sequence of <=3 earlier Scatter calls (every 3-store region, groups g1 g2) followed by Scatter of every 3-store region in every peer order with every leader",
+			gen:  genScatter(mkEnvs([]int{5}, []int{3}, []int{0, 1}, one, 0, nil), scatterBounds{hist: 3, groups: 2})},
+		{name: "scatter/3-6stores/replicas1-4/hist<=2", tiers: "thorough",
+			desc: "3..6 up stores x 1..4 replicas x rules {off, on}: histories of <=2 earlier calls (groups g1 g2); ScatterRegions on every ordered pair of regions and a pending peer with histories of <=2 calls",
+			gen: concat(genScatter(mkEnvs([]int{3, 4, 5, 6}, []int{1, 2, 3, 4}, []int{0, 1}, one, 0, nil), scatterBounds{hist: 2, groups: 2}),
+				genScatter(mkEnvs([]int{4, 5}, []int{2, 3}, one, one, 0, nil), scatterBounds{hist: 2, groups: 2, batch: true, lastCanon: true}),
+				genScatter(mkEnvs([]int{4, 5}, []int{3}, one, one, 0, nil), scatterBounds{hist: 2, groups: 1, pending: true}))},
+		{name: "scatter/4-6stores/2-non-up/hist<=2", tiers: "thorough",
+			desc: "4..6 stores of which <=2 are offline / down / disconnected / tombstone / evicted / reject-leader (6 stores: <=1), 3 replicas (and 2 replicas on 4 stores), rules {off, on}, with and without zone labels (5 and 6 stores): histories of <=2 earlier calls",
+			gen: concat(genScatter(mkEnvs([]int{4, 5}, []int{3}, []int{0, 1}, one, 2, allKinds[:6]), scatterBounds{hist: 2, groups: 1}),
+				genScatter(mkEnvs([]int{4}, []int{2}, []int{0, 1}, one, 2, allKinds[:6]), scatterBounds{hist: 2, groups: 1}),
+				genScatter(mkEnvs([]int{6}, []int{3}, []int{0, 1}, one, 1, allKinds[:6]), scatterBounds{hist: 2, groups: 1}),
+				genScatter(mkEnvs([]int{5, 6}, []int{3}, []int{0, 1}, []int{1}, 1, plainKinds), scatterBounds{hist: 2, groups: 1}))},
+		{name: "scatter/learners+tiflash/hist<=2", tiers: "thorough",
+			desc: "placement rules with a learner: (a) 2 or 3 voters + 1 learner on TiKV stores, 4..6 stores, <=1 non-up store; (b) 2 or 3 voters + 1 learner on engine=tiflash, 5 and 6 stores of which 2 are TiFlash, <=1 further non-up store: histories of <=2 earlier calls (groups g1 g2)",
+			gen: concat(genScatter(mkEnvs([]int{4, 5, 6}, []int{2, 3}, []int{3}, one, 1, plainKinds), scatterBounds{hist: 2, groups: 2}),
+				genScatter(append(append(tiflashEnvs(5, 2, plainKinds), tiflashEnvs(6, 3, plainKinds)...), tiflashEnvs(6, 2, plainKinds)...), scatterBounds{hist: 2, groups: 2}))},
+		{name: "sched/4stores/2-non-up", tiers: "thorough",
+			desc: "4 stores of which <=2 are offline/down/disconnected/tombstone/evicted/reject-leader/tiflash, 3 replicas, rules {off, on}; region on stores 1-3 with every leader, optionally one follower pending; every load vector over 3 levels; all schedulers (hot ones: 2 load levels, <=1 non-up store... see quick)",
+			gen: concat(genSched(mkEnvs([]int{4}, []int{3}, []int{0, 1}, one, 2, allKinds), schedBounds{types: coldTypes, levels: 3, pending: true}),
+				genSched(mkEnvs([]int{4}, []int{3}, []int{0, 1}, one, 2, allKinds), schedBounds{types: hotTypes, levels: 2}))},
+		{name: "sched/5stores", tiers: "thorough",
+			desc: "5 stores, 3 replicas, rules {off, on}, with and without zone labels, <=1 non-up store of every kind (<=2 of offline/down/evicted/reject-leader without labels), every load vector over 3 levels (2 levels with 2 non-up stores / second region); second region sharing no (store, role) with the first; all schedulers (hot ones: 2 load levels, one region)",
+			gen: concat(genSched(mkEnvs([]int{5}, []int{3}, []int{0, 1}, []int{0, 1}, 1, allKinds), schedBounds{types: coldTypes, levels: 3, pending: true}),
+				genSched(mkEnvs([]int{5}, []int{3}, []int{0, 1}, one, 2, plainKinds), schedBounds{types: coldTypes, levels: 2}),
+				genSched(mkEnvs([]int{5}, []int{3}, []int{0, 1}, []int{0, 1}, 1, plainKinds), schedBounds{types: coldTypes[:7], levels: 2, second: true}),
+				genSched(mkEnvs([]int{5}, []int{3}, []int{0, 1}, []int{0, 1}, 1, allKinds), schedBounds{types: hotTypes, levels: 2}))},
+		{name: "sched/replicas+learners", tiers: "thorough",
+			desc: "4 and 5 stores: 1, 2 and 4 replicas (rules off / on); 2 or 3 voters + 1 TiKV learner (rules on, every learner position); 2 voters + 1 TiFlash learner (5 stores, 2 TiFlash); <=1 non-up store, 3 load levels (hot schedulers 2), all schedulers",
+			gen: concat(genSched(mkEnvs([]int{4, 5}, []int{1, 2, 4}, []int{0, 1}, one, 1, allKinds), schedBounds{types: coldTypes, levels: 3}),
+				genSched(mkEnvs([]int{4, 5}, []int{2, 3}, []int{3}, one, 1, allKinds), schedBounds{types: coldTypes, levels: 3, pending: true}),
+				genSched(tiflashEnvs(5, 2, plainKinds), schedBounds{types: coldTypes, levels: 3}),
+				genSched(mkEnvs([]int{4, 5}, []int{1, 2, 4}, []int{0, 1}, one, 1, plainKinds), schedBounds{types: hotTypes, levels: 2}),
+				genSched(mkEnvs([]int{4, 5}, []int{2, 3}, []int{3}, one, 1, plainKinds), schedBounds{types: hotTypes, levels: 2}))},
+	}
+}
+
+func boundsDoc() interface{} {
+	return map[string]interface{}{
+		"stores":            "3-6 (scatter), 4-5 (schedulers)",
+		"replicas":          "1-4 peers per region (+1 learner under the learner rules)",
+		"store_kinds":       kindStr,
+		"non_up_stores":     "<=1 quick, <=2 thorough",
+		"scatter_histories": "<=2 earlier calls quick (<=1 outside the all-up 5-store scope), <=3 thorough; groups g1 g2",
+		"scatter_last_call": "every region of the environment that counts as replicated, every peer order, every voter leader; ScatterRegions on pairs; a pending peer",
+		"scheduler_loads":   "per-store load level in {low, mid, high} = region count {2,40,100} / leader count {1,15,40} / flow {0,4.5,7.5} MB/s",
+		"scheduler_regions": "1 region (every leader, learner position, optional pending follower) and 1 further region sharing no (store, role) with it",
+		"schedulers":        append(append([]string(nil), coldTypes...), hotTypes...),
+		"random_draws":      "all outcomes (vrand), run cap per input 20000 (scheduler) / 4096 (scatter), inputs hitting the cap are reported in caps_hit",
+	}
+}
+
+func assumptions() []string {
+	return []string{
+		"regionsim models a TiKV 5.0 store applying PD's commands; it is cross-checked at start-up against the steps' own IsFinish / ConfVerChanged; a newly added peer is first pending, then caught up",
+		"pkg/mock/mockcluster is the opt.Cluster (joint consensus supported and enabled); stores are built with core.StoreInfo options; time is virtual (vclock at a fixed epoch): up stores have a heartbeat at the epoch, disconnected 40 s before, down 24 h before",
+		"the oracle is written from the statement: a store is 'up' for receiving a peer when it is not offline / tombstone / down / disconnected; a store 'accepts leaders' when it is up, leader transfer to it is not paused (evict-leader), it has no reject-leader label and is not a TiFlash store; same number of voters and learners before and after; never two peers on a store; no store both loses and receives a peer; the operator must be executable by the store step by step",
+		"Go map iteration order inside pd (peers and target peers in scatterRegion, stores in GetStores, hot-store maps) is not controlled: each run takes one order; the inputs' peer orders are permuted (maps of <=8 entries iterate as a rotation of insertion order); this dimension is not claimed exhaustive",
+		"random draws in the history calls of a scatter sequence take their first outcome (the only draw, in CreateScatterRegionOperator, is overridden by the scatterer's target leader); every history call is itself the last call of a shorter enumerated input, where all outcomes are enumerated",
+		"the hot schedulers choose read / write with a private generator seeded from the clock (rand.Int, not a choice point of the shim): the scheduler is created at a virtual time whose seed selects the wanted type",
+		"grant-leader is only run with an up granted store (its purpose is to force leaders onto the configured store); random-merge is excluded (it merges, it does not move peers); scatter-range is run on the same scenarios as the others but needs >=5 regions per store to act, whose 10 up-front region draws per pick (5^10 outcomes) are beyond exhaustive enumeration: its inner balance-leader / balance-region code is what the standalone schedulers exercise",
+		"schedulers see at most one region per (store, role) so that core's RandomRegions (10 draws per pick) has a single outcome per pick",
+	}
+}
